@@ -155,6 +155,23 @@ add("C15",
     TRUST + "Solvers/qhull opaque. Known finding D12 (absolute NNLS tolerance makes flat-gamut membership unit dependent) is reported as KNOWN-FINDING.",
     "Coq proof over Q (equivariance algebra) + paired certified runs compared by vm_compute", "DESIGN.md §5 C15")
 
+add("C08",
+    "(F) each of the six secondary objectives handed to cvxpy equals its documented meaning for every x (squared norm with the same minimisers as the norm, total intensity "
+    "min/max, n x variance across sources, squared distance of the total to a number, squared distance to a vector); the added constraint is exactly 'weighted capture error "
+    "<= l2_eps'. (C) generic weak-duality theorem with second-order-cone rows (Cert/Qp.v): a passing verdict means the returned X optimises the selected objective among ALL "
+    "in-bound intensities reproducing the target within l2_eps. Verdict evaluated in the Coq VM on every ReceptorEstimator.fit_underdetermined result, with bounds, "
+    "reproduction and prediction checks.",
+    TRUST + "Conic solver opaque. Multipliers from a HiGHS LP over the dual (untrusted). Tolerances: objective 1e-4 of its range over the solution polytope, reproduction l2_eps*(1+1e-3)+1e-7.",
+    "Coq weak-duality certificate checker with cone rows (proved sound) + formulation theorems", "DESIGN.md §5 C08, §3.2")
+add("C09",
+    "(F) the code's objective sum(Epsilon @ x^2) is the summed capture variance; explicit variances propagate through K with K^2; default model = squared transformed capture matrix. "
+    "(C) a passing verdict means the returned intensities have minimal summed capture variance among ALL in-bound intensities within the error budget (exact best error + l2_eps) "
+    "and inside the L1 window when requested — hence never above the ordinary fit. Verdict (incl. reported B_var = variance model applied to X, prediction, feasibility) evaluated "
+    "in the Coq VM on every ReceptorEstimator.minimize_variance result; the exact best error comes from an exact-rational active-set solve.",
+    TRUST + "Conic solver opaque; dual multipliers from HiGHS (untrusted); the exact best error is computed by the harness (a wrong value can only fail the verdict or weaken the bound). "
+    "Feasibility slack 1e-4 capture units, optimality 1e-4 relative. Batched behaviour is C05's.",
+    "Coq weak-duality certificate checker with cone + linear rows (proved sound) + formulation theorems", "DESIGN.md §5 C09, §3.2")
+
 NOT_APPLICABLE = []
 ALL = ["C%02d" % i for i in range(1, 21)]
 
